@@ -57,7 +57,17 @@ def single_assignments(fnode) -> Dict[str, ast.AST]:
             counts[n.name] = counts.get(n.name, 0) + 2
         elif isinstance(n, ast.NamedExpr):
             counts[n.target.id] = counts.get(n.target.id, 0) + 2
-    return {k: v for k, v in values.items() if counts.get(k) == 1 and k not in params}
+    # a container that is filled in place after its binding is not its initial value
+    mutated = set()
+    for n in walk_local(fnode):
+        if isinstance(n, ast.Call) and isinstance(n.func, ast.Attribute) and isinstance(n.func.value, ast.Name) \
+                and n.func.attr in ('append', 'extend', 'insert', 'add', 'update', 'pop', 'remove', 'clear', 'sort', 'reverse',
+                                    'setdefault', 'discard', 'popitem', 'appendleft', 'extendleft'):
+            mutated.add(n.func.value.id)
+        elif isinstance(n, ast.Subscript) and isinstance(n.ctx, (ast.Store, ast.Del)) and isinstance(n.value, ast.Name):
+            mutated.add(n.value.id)
+    return {k: v for k, v in values.items() if counts.get(k) == 1 and k not in params
+            and not (k in mutated and isinstance(v, (ast.List, ast.Dict, ast.Set, ast.ListComp, ast.DictComp, ast.SetComp, ast.Call)))}
 
 
 class _Subst(ast.NodeTransformer):
